@@ -130,6 +130,14 @@ add('C15', EDITS + 'TLC enumerates every history of N edits over all operation k
     'step by step; longer random histories chosen from the real tree\'s views are validated by TLC event by event.',
     'Depth-bounded exhaustive part on small documents; material always freshly parsed.', '7 (C15)')
 
+add('C17', 'TLC: reader machine on the source pool (expected trees), lexer Determinism/PunctPrefixFree on every sizing command, '
+    'Session.tla enumerating all interleavings of parse/edit/reparse/drop on two documents; replay: every input form and chunking, '
+    'fresh interpreters under 8 hash seeds, every interleaving with per-slot isolation and identity-disjointness',
+    'TLC supplies the expected tree of every pool source and all interleavings of a two-document session; the real parser is fed '
+    'every form and chunking (incl. empty chunks) of every source, run under several hash seeds in fresh interpreters, and driven '
+    'through every interleaving, after each step of which every document must equal its own history run alone and share no '
+    'mutable object with the other.', 'Bounded pool of sources, 4-step sessions, 8 seeds; id() as the notion of sharing.', '7 (C17)')
+
 NOT_YET = 'check not built yet in this round (planned, see DESIGN.md section 7)'
 
 
